@@ -31,7 +31,7 @@ CHECKS["C17"] = {
     "packages": ["traversal", "util", "util/channels", "util/atomics", "graph", "ops", "graphcache", "cardinality", "cache"],
     "level": "exploration",
     "budget": {"quick": 30, "thorough": 900},
-    "rule": "one evaluation = one seeded simulated run of the instrumented traversal stack: (a) BreadthFirst over a random digraph (<=6 nodes, <=10 edges, self loops, cycles, parallel edges), 1-4 workers, closure driver with depth bound or the real pattern driver over simdb cursors, optional fault (driver/visitor/ReadTransaction/cursor error on the k-th arrival, 1-byte memory limit, caller cancel at scheduler step k, deadline on the simulated clock with slow drivers); (b) BufferedPipe with 1-2 writers, eager/late/stopping reader, optional cancel. "
+    "rule": "one evaluation = one seeded simulated run of the instrumented traversal stack: (a) BreadthFirst over a random digraph (<=6 nodes, <=10 edges, self loops, cycles, parallel edges), 1-4 workers, closure driver with depth bound or the real pattern driver over simdb cursors, optional fault (driver/visitor/ReadTransaction/cursor error on the k-th arrival, 1-byte memory limit, caller cancel at scheduler step k, deadline on the simulated clock with slow drivers); (b) BufferedPipe with 1-2 writers, eager/late/stopping reader, optional cancel; (c) the sequential helpers (TraversePaths, AcyclicTraverseNodes, AcyclicTraverseTerminals, TraverseIntermediaryPaths, both directions, skip/limit) over simdb with the real cursor goroutines and cursor-error faults, against maximal-simple-path / reachability ground truth. "
             "Non-trivial = at least one contended scheduler decision switched tasks or a fault fired; distinct = distinct hashes of (workload, (task, site) decision sequence), union over workers (per-worker cap 2M: lower bound).",
     "real": ["traversal.BreadthFirst + pattern driver", "util/channels (Submit, Receive, BufferedPipe)", "util.ErrorCollector", "util/atomics", "graph.PathSegment/Tree", "graph.ResultIterator", "ops", "graphcache", "cardinality wrappers (all instrumented)"],
     "stubs": ["simdb (in-memory graph.Database; cursors through the real graph.NewResultIterator)", "harness-side closure driver / visitors"],
@@ -41,7 +41,7 @@ CHECKS["C17"] = {
         "after caller cancellation or a deadline only return, absence of invented/duplicated visits and absence of leftover tasks are asserted (the code filters context errors by design)",
         "the shared path-tree size estimate is not asserted (the statement calls it an estimate)",
     ],
-    "expected_probes": ["driver_err", "visitor_err", "tx_err", "cursor_err", "cancel", "pipe_full_delivery", "pipe_writers_finished_before_first_read"],
+    "expected_probes": ["driver_err", "visitor_err", "tx_err", "cursor_err", "cancel", "pipe_full_delivery", "pipe_writers_finished_before_first_read", "seq_paths", "seq_nodes", "seq_terminals", "seq_cursor_error_surfaced"],
 }
 
 CHECKS["C13"] = {
